@@ -4,6 +4,7 @@ CONSTANTS
   UnfrozenCleansSubs = FALSE
   CleanupCollects = FALSE
   ShutdownContained = FALSE
+  RunAppCatchesBase = TRUE
   MaxStartFaults = 1
   Entries = {"Runner", "RunnerNoExplicitCleanup", "RunApp"}
 POSTCONDITION PrintVerdicts
